@@ -18,7 +18,10 @@ def onreset_designs(tier):
             sbody = [assign("next", "s", D), assign("next", "o", resize(S, 3)), if_(A, [assign("value", "v", bin_("add", V, pint(1)))]),
                      assign("next", "q", V), if_(B, [assign("push", "p", TRUE)])]
             e = gen_seq.seq_entity(f"E04R_{k:03d}", sbody, rst, f"onreset_seq_{form}")
-            e["ctxs"][0]["onreset"] = [assign("next", "o", pint(5)), assign("value", "v", pint(2)), if_(D_IS3(), [assign("next", "s", pint(1))])]
+            # (an action that reads a data input is only meaningful for a synchronous reset: the emitted process of an
+            #  asynchronous one is sensitive to clock and reset only - see the C06 design `onreset_async_reads_signal`)
+            e["ctxs"][0]["onreset"] = [assign("next", "o", pint(5)), assign("value", "v", pint(2))] + \
+                                      ([] if rst.get("async") else [if_(D_IS3(), [assign("next", "s", pint(1))])])
             e["ctxs"][0]["onreset_form"] = form
             ents.append(e)
             k += 1
